@@ -123,6 +123,7 @@ class RefineChecker:
         self.clauses = clauses
         self.state_sigs: List[str] = []
         self.fallback: Optional[ir.TableState] = None
+        self.max_version = -1
         w.on_flip.append(self.on_flip)
 
     def state_for(self, hint: Optional[bytes]) -> Optional[ir.TableState]:
@@ -155,6 +156,17 @@ class RefineChecker:
         res = dict(rec.get("resolved", {})) if rec else {}
         if flip["old"] is None and self.fallback is None:
             res = {"init": True}
+        mutating = any(k in res for k in ("appends", "deletes", "expire", "delete_snapshot", "set_prop", "init", "file_op"))
+        if N.version is not None:
+            if not mutating and P is not None and N.pointer == P.pointer:
+                self.w.sim.probe("pointer_rewritten_same_target")      # e.g. a repair of a lost pointer: no commit
+                return
+            if not mutating and N.version < self.max_version:
+                self.problems.append({"clause": "R.pointer_regressed", "flip": flip["n"],
+                                      "msg": f"flip {flip['n']} by {flip['actor']} ({rec['op']['kind'] if rec else '?'}) re-pointed the "
+                                             f"table at version {N.version} although version {self.max_version} had been committed"})
+                return
+            self.max_version = max(self.max_version, N.version)
         probs = model.refine(P, N, res, self.commit_order)
         for s in N.snaps:
             if s.id not in self.commit_order and (P is None or P.snap(s.id) is None):
